@@ -162,6 +162,45 @@ func run(cfg lib.Cfg) error {
 			}
 		}
 	}
+	// how the configuration SPELLS start / stop / chain_id: the values travel as JSON text ->
+	// json.Unmarshal into config.Root (wos.EnvUint64) -> ValidateFix -> loadTasks / WithRange;
+	// the same for a declaration stored in shovel.integrations.  Bare numbers, quoted decimals,
+	// zero-padded quoted decimals (also "08" / "09", which are not even octal numerals) and
+	// "$NAME" references to the environment all denote the DECIMAL value.  Load-time oracle:
+	// the task's range is the configured decimal value; then the usual range oracle.
+	for v, c := range []struct {
+		start, stop         uint64
+		startText, stopText string
+		env                 map[string]string
+		chainText           string
+		db                  bool
+	}{
+		{10, 14, ``, ``, nil, ``, false},           // control: bare numbers
+		{10, 14, `"10"`, `"14"`, nil, ``, false},   // quoted decimals
+		{10, 14, `"010"`, `"014"`, nil, ``, false}, // zero-padded: octal would be 8 and 12
+		{10, 17, `"0010"`, `"00017"`, nil, `"010"`, false},
+		{8, 9, `"08"`, `"09"`, nil, ``, false}, // not octal numerals at all
+		{10, 12, `"$C06_START"`, `"$C06_STOP"`, map[string]string{"C06_START": "010", "C06_STOP": "012"}, ``, false},
+		{11, 0, `"$C06_START"`, ``, map[string]string{"C06_START": "0011"}, `"$C06_CHAIN"`, false},
+		{10, 14, `"010"`, `"014"`, nil, ``, true}, // stored in shovel.integrations
+		{12, 15, `"12"`, `"$C06_STOP"`, map[string]string{"C06_STOP": "015"}, ``, true},
+	} {
+		sc := &ts.Scenario{Name: fmt.Sprintf("spelling-%d-start-%s-stop-%s", v, c.startText, c.stopText), Seed: uint64(400 + v), Head: 18, Env: c.env,
+			Gen:  ts.GenOpts{MaxTxs: 2, MaxLogs: 3, Decoys: true, EmptyProb: 0},
+			Srcs: []ts.SrcSpec{{Name: "main", ChainID: 10, ChainIDText: c.chainText, Batch: 3, Conc: 1, URL: "http://main.invalid"}},
+			IGs: []ts.IGSpec{{Name: "ig1", Shape: []string{"log", "tx"}[v%2], Table: "t1",
+				Sources: []ts.SrcRef{{Name: "main", Start: c.start, Stop: c.stop, StartText: c.startText, StopText: c.stopText}}}}}
+		if c.chainText == `"$C06_CHAIN"` {
+			sc.Env["C06_CHAIN"] = "010"
+		}
+		if c.db {
+			sc.DBRows = []ts.DBRow{{Name: "ig1", Copies: 1, Spelled: true}}
+		}
+		sc.Acts = append(sc.Acts, ts.Steps(1, 2)...)
+		sc.Acts = append(sc.Acts, ts.Act{Do: "restart"})
+		sc.Acts = append(sc.Acts, ts.Steps(1, 4)...)
+		judge(sc, "spelling-of-start-stop")
+	}
 	// two integrations on ONE source through the real jrpc2.Client (one client per source,
 	// shared segment caches, maxreads 2), same plan kind, both at the same position; "bounded"
 	// has a stop inside the next batch, "open" has none and asks for the longer batch from the
